@@ -75,7 +75,8 @@ const (
 	// transitions end in 2037, after that each zone follows a fixed yearly rule and the calendar
 	// (weekday, leap year) configurations repeat with the 400-year Gregorian cycle. Later
 	// transitions (thorough tier) are still decoded at every whole hour of the transition day.
-	minuteYearMax = 2437
+	minuteYearMax  = 2437
+	minuteYearFull = 2100 // up to here also the neighbouring days and second 59 of every minute
 )
 
 type zoneOut struct {
@@ -83,7 +84,7 @@ type zoneOut struct {
 	Cnt         counters             `json:"counters"`
 	Fingerprint string               `json:"fingerprint"`
 	NoInstant   []string             `json:"no_instant_days"`
-	Violations  []vk.WorkerViolation `json:"violations"`
+	Violations  []found              `json:"violations"`
 	Samples     []any                `json:"samples"`
 	Flagged     []int64              `json:"flagged,omitempty"`
 	Trace       []string             `json:"trace,omitempty"`
@@ -146,9 +147,12 @@ func calendarSelfTest() error {
 
 func zoneWorker(r *vk.Run, name string, withTrace bool) {
 	start := time.Now()
-	out := zoneOut{Zone: name, NoInstant: []string{}, Machinery: []string{}, Samples: []any{}}
+	out := zoneOut{Zone: name, NoInstant: []string{}, Machinery: []string{}, Samples: []any{}, Violations: []found{}}
+	var c *ctx
 	emit := func() {
-		out.Violations = r.Export()
+		if c != nil {
+			out.Violations = c.found()
+		}
 		out.Secs = time.Since(start).Seconds()
 		b, _ := json.Marshal(out)
 		os.Stdout.Write(append(b, '\n'))
@@ -164,7 +168,7 @@ func zoneWorker(r *vk.Run, name string, withTrace bool) {
 		emit()
 	}
 	time.Local = loc // the configuration under test
-	c := newCtx(r, &zoneRef{name: name, loc: loc})
+	c = newCtx(r, &zoneRef{name: name, loc: loc})
 	lo, hi := tierRange(r)
 
 	var flagged []int64
@@ -308,14 +312,16 @@ func (c *ctx) phaseB(lo, hi int64, flagged []int64, out *zoneOut) {
 	}
 	for _, n := range sortedSet(set) {
 		y, m, d := fromOrdinal(n)
+		day := mkDay(y, m, d)
+		c.cur = kase{Fn: "date constructors", Y: y, M: m, D: d}
 		for _, f := range dateFns {
-			c.checkDate(f.fn, f.via, y, m, d)
+			c.checkDay(f.fn, f.via, day)
 			c.cnt.DateCases++
 		}
 		inSys := y >= sysYearLo && y <= sysYearHi
 		if near[n] || inSys {
 			for _, f := range dateFnsExtra {
-				c.checkDate(f.fn, f.via, y, m, d)
+				c.checkDay(f.fn, f.via, day)
 				c.cnt.DateCases++
 			}
 		}
@@ -329,7 +335,7 @@ func (c *ctx) phaseB(lo, hi int64, flagged []int64, out *zoneOut) {
 			}
 		}
 		if near[n] && !c.z.midnight(y, m, d) && len(out.Samples) < 2 {
-			o := libDate("ToDate", "direct", y, m, d)
+			o := libDate("ToDate", "direct", day)
 			out.Samples = append(out.Samples, map[string]any{
 				"zone": c.z.name, "day": refDateText(y, m, d), "reference": "00:00 does not exist; day has an instant: " + fmt.Sprint(c.z.dayHasInstant(y, m, d)),
 				"ToDate": refDateText(o.y, o.m, o.d),
@@ -355,19 +361,24 @@ func (c *ctx) phaseC(lo, hi int64, flagged []int64) {
 		c.checkDateTime(y, m, d, h, mi, s, class) // probe existence: exempt or record
 	}
 
+	// flagged day f up to minuteYearFull: every whole minute of f-1, f, f+1 (second 0) and second 59
+	// of every minute of f; up to minuteYearMax: every whole minute of f; later: every half hour of f.
 	isFlagged := map[int64]bool{}
 	minuteDays := map[int64]bool{}
-	var hourly []int64
+	var halfHourly []int64
 	for _, f := range flagged {
-		isFlagged[f] = true
-		if y, _, _ := fromOrdinal(f); y <= minuteYearMax {
+		switch y, _, _ := fromOrdinal(f); {
+		case y <= minuteYearFull:
+			isFlagged[f] = true
 			for n := f - 1; n <= f+1; n++ {
 				if n >= lo && n <= hi {
 					minuteDays[n] = true
 				}
 			}
-		} else {
-			hourly = append(hourly, f)
+		case y <= minuteYearMax:
+			minuteDays[f] = true
+		default:
+			halfHourly = append(halfHourly, f)
 		}
 	}
 	for _, n := range sortedSet(minuteDays) {
@@ -380,7 +391,7 @@ func (c *ctx) phaseC(lo, hi int64, flagged []int64) {
 			}
 		}
 	}
-	for _, n := range hourly {
+	for _, n := range halfHourly {
 		y, m, d := fromOrdinal(n)
 		for h := 0; h < 24; h++ {
 			run(y, m, d, h, 0, 0, "transition-day")
@@ -515,6 +526,9 @@ func replay(r *vk.Run) {
 	if panicked {
 		c.violation("C13/panic/"+frame, "library panicked: "+msg, k)
 	}
+	for _, f := range c.found() {
+		r.Violation(f.Key, f.What, "case", f.Case)
+	}
 	r.Count(c.cnt.Evals)
 	r.Distinct(c.cnt.Judged)
 	r.Rule("replay of one recorded case")
@@ -637,10 +651,12 @@ func main() {
 
 	// aggregate in zone order (simplest zones first: the first case per key is kept)
 	var total counters
+	merged := map[string]*found{}
+	mergedOrder := []string{}
 	seen := map[string]string{}
 	noInstant := []string{}
 	var distinct, traces int64
-	var slowest float64
+	var slowest, workerSecs float64
 	slowestZone := ""
 	skipping := 0
 	for i, out := range results {
@@ -650,7 +666,18 @@ func main() {
 		for _, m := range out.Machinery {
 			r.Machinery("zone %s: %s", out.Zone, m)
 		}
-		r.Import(out.Violations)
+		for _, f := range out.Violations {
+			if g, ok := merged[f.Key]; !ok {
+				g := f
+				merged[f.Key] = &g
+				mergedOrder = append(mergedOrder, f.Key)
+			} else {
+				g.Count += f.Count
+				if f.Modern && !g.Modern {
+					g.What, g.Case, g.Modern = f.What, f.Case, true
+				}
+			}
+		}
 		total.Evals += out.Cnt.Evals
 		total.Judged += out.Cnt.Judged
 		total.Unjudged += out.Cnt.Unjudged
@@ -675,9 +702,15 @@ func main() {
 			r.Sample(s)
 		}
 		traces += validated[i]
+		workerSecs += out.Secs
 		if out.Secs > slowest {
 			slowest, slowestZone = out.Secs, out.Zone
 		}
+	}
+
+	for _, key := range mergedOrder {
+		f := merged[key]
+		r.Import([]vk.WorkerViolation{{Key: f.Key, What: f.What, Kind: "case", Case: f.Case, Count: f.Count}})
 	}
 
 	lo, hi := tierRange(r)
@@ -685,8 +718,8 @@ func main() {
 	hy, hm, hd := fromOrdinal(hi)
 	r.Count(total.Evals)
 	r.Distinct(distinct)
-	r.Rule(fmt.Sprintf("zones: %d (one child process each, time.Local = the loaded location); per zone: (a) ToDate on every day %s..%s; (b) every day whose 00:00 is missing or whose offset changes within the day (found by a time.Date scan) +-2 and the 1st/15th/last of every month: ToDate, ParseDate, Date wire decode (direct, codec value field, codec pointer field), Date JSON decode, and for years %d..%d the two-digit SystemDate decode and the SystemDate+SystemTime recombination through GetStatus and Listen at %d times of day (with a four-digit event timestamp alongside); (c) DateTime wire decode at every whole minute (and second 59 on the transition day) of those days +-1 up to year %d, every half hour of later transition days, every hour of 2024. distinct_nontrivial = judged (function, civil input) cases summed over zones with pairwise different midnight-offset histories over the range (aliases counted once); evaluations counts every library call incl. exempt ones",
-		len(zones), refDateText(ly, lm, ld), refDateText(hy, hm, hd), sysYearLo, sysYearHi, len(statusTimes), minuteYearMax))
+	r.Rule(fmt.Sprintf("zones: %d (one child process each, time.Local = the loaded location); per zone: (a) ToDate on every day %s..%s; (b) every day whose 00:00 is missing or whose offset changes within the day (found by a time.Date scan) +-2 and the 1st/15th/last of every month: ToDate, ParseDate, Date wire decode (direct, codec value field, codec pointer field), Date JSON decode, and for years %d..%d the two-digit SystemDate decode and the SystemDate+SystemTime recombination through GetStatus and Listen at %d times of day (with a four-digit event timestamp alongside); (c) DateTime wire decode around every flagged day f: up to year %d every whole minute of f-1, f, f+1 plus second 59 of every minute of f; up to year %d every whole minute of f; later every half hour of f; and every hour of every day of 2024. distinct_nontrivial = judged (function, civil input) cases summed over zones with pairwise different midnight-offset histories over the range (aliases counted once); evaluations counts every library call incl. exempt ones",
+		len(zones), refDateText(ly, lm, ld), refDateText(hy, hm, hd), sysYearLo, sysYearHi, len(statusTimes), minuteYearFull, minuteYearMax))
 	r.Set("zones", len(zones))
 	r.Set("zones_distinct_histories", len(seen))
 	r.Set("zones_with_skipped_midnight", skipping)
@@ -702,6 +735,7 @@ func main() {
 	r.Set("cases_exempt_or_unconstrained", total.Unjudged)
 	r.Set("traces_validated_against_impl", traces)
 	r.Set("slowest_zone", fmt.Sprintf("%s %.1fs", slowestZone, slowest))
+	r.Set("worker_seconds_total", workerSecs)
 	r.Assume("the Go time package's zone arithmetic (time.Date in an explicit Location, tzdata) decides whether a civil time exists in a zone; the calendar, the BCD and the text renderings of the reference are hand-written")
 	r.Assume("the century of the two-digit status system date is unconstrained: (YY, MM, DD[, h, m, s]) is demanded only when the civil day/time exists in the zone in both 19YY and 20YY")
 	r.Assume("setting time.Local in a worker process is equivalent to starting the process with TZ=<zone>; validated for every flagged (zone, day) of the quick zone set (traces_validated_against_impl)")
